@@ -131,6 +131,10 @@ func optFor(tok string) gldap.Option {
 		return gldap.WithErrorCode(9)
 	case "errbig":
 		return gldap.WithErrorCode(300)
+	case "errhuge":
+		return gldap.WithErrorCode(^uint(0) - 1)
+	case "errmax":
+		return gldap.WithErrorCode(^uint(0))
 	case "label":
 		return gldap.WithLabel("l")
 	case "basedn":
